@@ -145,6 +145,9 @@ class C15(World):
                 self.violate("C15", "J4-cache-unusable", phase,
                              f"{why}: a restarted client of {ident.key} cannot complete a profile request: {st[1]}",
                              identity=ident.key, phase=phase)
+            elif st[0] == "bad" and st[1].startswith("asks the server with the 'no profile' date"):
+                self.violate("C15", "J1-asked-date", "holds-profile-but-asks-as-if-absent",
+                             f"{why}: a restarted client of {ident.key} {st[1]}", identity=ident.key)
             elif st[0] == "bad":
                 self.violate("C15", "J4-cache-not-whole", phase,
                              f"{why}: a restarted client of {ident.key} gets back {st[1]}",
